@@ -696,3 +696,76 @@ func TestC10Histories(t *testing.T) {
 		}
 	})
 }
+
+// Saved input (D23): the whole-request timeout also bounds the wait for a free connection.
+// MaxConns=1, MaxConnWaitTimeout=300 ms; call A keeps the only connection busy for 700 ms; call B,
+// with a 100 ms request timeout, must be back after about 100 ms (it used to wait the full 300 ms).
+func TestC10Regress(t *testing.T) {
+	rec := ev.New("regress")
+	for round := 0; round < 3; round++ {
+		var maxLate int64
+		stop := make(chan struct{})
+		go func() {
+			for {
+				select {
+				case <-stop:
+					return
+				default:
+				}
+				t0 := time.Now()
+				time.Sleep(200 * time.Microsecond)
+				if late := int64(time.Since(t0)); late > atomic.LoadInt64(&maxLate) {
+					atomic.StoreInt64(&maxLate, late)
+				}
+			}
+		}()
+		dial := func(n int, addr string) (net.Conn, error) {
+			cc, sc := net.Pipe()
+			go func() {
+				defer sc.Close()
+				buf := make([]byte, 4096)
+				var got []byte
+				for {
+					n, err := sc.Read(buf)
+					got = append(got, buf[:n]...)
+					if _, perr := wire.ReadRequest(got, 0); perr == nil {
+						break
+					}
+					if err != nil {
+						return
+					}
+				}
+				time.Sleep(700 * time.Millisecond)
+				sc.Write(response("A", "")) //nolint:errcheck
+			}()
+			return cc, nil
+		}
+		cl := cli.New(http1.ClientOptions{MaxConns: 1, MaxConnWaitTimeout: 300 * time.Millisecond, MaxIdleConnDuration: time.Hour, DialTimeout: time.Second}, dial)
+		doneA := make(chan error, 1)
+		go func() {
+			req, resp := protocol.AcquireRequest(), protocol.AcquireResponse()
+			req.SetRequestURI("http://example.com/a")
+			doneA <- cl.HC.Do(context.Background(), req, resp)
+		}()
+		time.Sleep(20 * time.Millisecond)
+		req, resp := protocol.AcquireRequest(), protocol.AcquireResponse()
+		req.SetRequestURI("http://example.com/b")
+		req.SetOptions(config.WithRequestTimeout(100 * time.Millisecond))
+		t0 := time.Now()
+		err := cl.HC.Do(context.Background(), req, resp)
+		el := time.Since(t0)
+		<-doneA
+		close(stop)
+		late := time.Duration(atomic.LoadInt64(&maxLate))
+		rec.Case(true, ev.HashString("D23", fmt.Sprint(round)), "regress-D23")
+		if err == nil {
+			ev.Fail(prop, "regress", map[string]string{"case": "D23"}, "call B succeeded although the only connection was busy")
+			t.Errorf("D23: call B succeeded although the only connection was busy")
+		}
+		if late <= quietBeat && el > 100*time.Millisecond+tightSlack {
+			msg := fmt.Sprintf("call with a 100 ms request timeout returned after %v (err=%v) although the scheduler was never more than %v late: the wait for a free connection (MaxConnWaitTimeout 300 ms) is not bounded by the request timeout", el, err, late)
+			ev.Fail(prop, "regress", map[string]string{"case": "D23"}, msg)
+			t.Errorf("D23: %s", msg)
+		}
+	}
+}
